@@ -467,8 +467,8 @@ func (inst *InstCall) LLString() string {
 		fmt.Fprintf(buf, " %s", attr)
 	}
 	// (optional) Address space.
-	if inst.AddrSpace != 0 {
-		fmt.Fprintf(buf, " %s", inst.AddrSpace)
+	if addrSpace := calleeAddrSpace(inst.AddrSpace, inst.Callee); addrSpace != 0 {
+		fmt.Fprintf(buf, " %s", addrSpace)
 	}
 	// Use function signature instead of return type for variadic functions.
 	calleeType := inst.Type()
